@@ -237,6 +237,11 @@ func (env *Env) eval(x Expr) (Val, error) {
 		}
 		xv, err := env.eval(n.X)
 		if err != nil {
+			if ms, ok := err.(*missingSiteError); ok && n.Op == "!" {
+				// a literal about a call site the code does not have: false (like called() of that site)
+				env.e.note("contract literal %s mentions call site %s which does not exist in %s (literal is false)", n.exprString(), ms.label, ms.fn)
+				return boolVal(False), nil
+			}
 			return Val{}, err
 		}
 		switch n.Op {
